@@ -96,6 +96,9 @@ Proof.
     + cbn [length] in *. lia.
 Qed.
 
+Lemma pow_10_20 : 10 ^ N.of_nat 20 = 100000000000000000000.
+Proof. vm_compute. reflexivity. Qed.
+
 (* ---- the two facts the round trip needs ---- *)
 Lemma z_to_str_head : forall z, (0 <= z)%Z -> head_is is_digit (z_to_str z).
 Proof.
@@ -122,7 +125,7 @@ Proof.
       by (unfold is_ident_char, is_alpha, is_lower, is_upper, is_digit in *; lia).
     cbn. rewrite H1. reflexivity.
   - cbn [z_to_str]. unfold i64_max in Hmax.
-    assert (Hlt : N.pos p < 10 ^ N.of_nat 20) by (cbn; lia).
+    assert (Hlt : N.pos p < 10 ^ N.of_nat 20) by (rewrite pow_10_20; lia).
     destruct (dec_aux_head 20 (N.pos p) [] ltac:(lia) Hlt) as [d [r [E [Hd H48]]]].
     pose proof (dec_aux_digits 20 (N.pos p) [] eq_refl) as Hall.
     pose proof (dec_aux_val 20 (N.pos p) [] Hlt) as Hval. cbn [dval] in Hval.
